@@ -32,6 +32,9 @@ def gen_C01(rng, tier):
             w = "80000000" if v == "00000000" else v
             L.append("q cmp %s %s" % (q(v, m1, s1), q(w, m2, s2)))       # equal VALUES: panics iff the units differ
             L.append("q eq %s %s" % (q(v, m1, s1), q(w, m2, s2)))
+            for op in ("lt", "le", "gt", "ge", "ne"):                       # the operator forms, on equal and on random values
+                L.append("q %s %s %s" % (op, q(v, m1, s1), q(w, m2, s2)))
+                L.append("q %s %s %s" % (op, q(rand_f(rng), m1, s1), q(rand_f(rng), m2, s2)))
     for (m1, s1) in GRID:
         for (m2, s2) in GRID:
             for op in ["add", "sub", "mul", "div", "addas", "subas", "mulas", "divas", "uceq", "ueqt", "ueqf", "uaok", "uanok", "ucaeq"]:
@@ -77,7 +80,7 @@ def gen_C01(rng, tier):
     # special float values: bit-level comparison only
     for a in SPECIAL_F:
         for b in SPECIAL_F:
-            for op in ["add", "sub", "mul", "div", "cmp", "eq"]:
+            for op in ["add", "sub", "mul", "div", "cmp", "eq", "lt", "le", "gt", "ge", "ne"]:
                 L.append("q %s Q:%s:1,0 Q:%s:1,0" % (op, a, b))
         L.append("q neg Q:%s:1,0" % a)
         L.append("q abs Q:%s:1,0" % a)
